@@ -37,7 +37,7 @@ func c20get(idx int) (c20case, []resp.Value, []byte, []int) {
 		at := c.AuthAt
 		reqs = append(reqs[:at:at], append([]resp.Value{resp.Cmd("AUTH", "Secr3t")}, reqs[at:]...)...)
 	}
-	c.Ending = rng.Pick(r, []string{"eof", "eof", "cut", "cut", "reset", "malformed", "nonarray"})
+	c.Ending = rng.Pick(r, []string{"eof", "eof", "cut", "cut", "reset", "malformed", "nonarray", "write-fail", "write-fail"})
 	switch c.Ending {
 	case "nonarray":
 		at := r.Intn(len(reqs) + 1)
@@ -224,7 +224,13 @@ func c20run(idx int) run.Result {
 	if c.Ending == "reset" {
 		ending = sconn.Reset
 	}
-	conn := sconn.New(sconn.Script{Chunks: chunks, End: ending})
+	script := sconn.Script{Chunks: chunks, End: ending}
+	if c.Ending == "write-fail" {
+		// the peer is gone when the reply is written: the k-th write fails (optionally after a few bytes)
+		script.FailWriteAt = 1 + r.Intn(3)
+		script.FailWriteKeep = r.Intn(3)
+	}
+	conn := sconn.New(script)
 	sr := double.Serve(srv, conn, serveWait)
 	spans := tr.Snapshot()
 	res.Key = gen.Hash64(stream) ^ gen.Hash64([]byte(c.Ending+c.Chunking))
@@ -281,7 +287,7 @@ func init() {
 	run.Register(&run.Prop{
 		ID: "C20", Level: "exploration",
 		Rule: func(tier string) string {
-			return "case = one pipeline as in C03/C10 (every command rotating in position 0; valid, ill-formed, surplus, unknown, composed commands, QUIT, scripted handler errors), optionally on a password-protected server with AUTH inserted at a seeded position (requests before it are unauthorized), with a non-array request inserted, ending in: EOF at the end, EOF or reset at a seeded byte offset inside the stream, or a malformed frame; delivered whole, per request, 1-byte or random k-way. A recording tracer.Tracer (whose contexts are the library's own common.NewSpanContextWith) is installed with SetTracer. The merged log of span, would-block and write events is checked online against the trace specification: finish refers to an open span, never twice; a child starts under an open parent and all children finish before the parent; at a would-block read only the waiting root and its parse child are open; a new root never starts while another is open; each reply write lies inside exactly one root and its response child; a finished root has one parse child, <=1 command child and <=1 response child; nothing is open when the loop returns. non-trivial = error outcome, composed command, QUIT, password, or an ending other than clean EOF"
+			return "case = one pipeline as in C03/C10 (every command rotating in position 0; valid, ill-formed, surplus, unknown, composed commands, QUIT, scripted handler errors), optionally on a password-protected server with AUTH inserted at a seeded position (requests before it are unauthorized), with a non-array request inserted, ending in: EOF at the end, EOF or reset at a seeded byte offset inside the stream, a malformed frame, or a failing reply write (the k-th write fails, optionally after a few bytes); delivered whole, per request, 1-byte or random k-way. A recording tracer.Tracer (whose contexts are the library's own common.NewSpanContextWith) is installed with SetTracer. The merged log of span, would-block and write events is checked online against the trace specification: finish refers to an open span, never twice; a child starts under an open parent and all children finish before the parent; at a would-block read only the waiting root and its parse child are open; a new root never starts while another is open; each reply write lies inside exactly one root and its response child; a finished root has one parse child, <=1 command child and <=1 response child; nothing is open when the loop returns. non-trivial = error outcome, composed command, QUIT, password, or an ending other than clean EOF"
 		},
 		Assumptions: []string{"handlers do not panic (a panic inside a command is outside the statement's list of outcomes)"},
 		Setup: func(tier string, seed uint64) int {
